@@ -124,6 +124,13 @@ def op_resave_cycle(sim: Sim, a) -> str:
             w.remove(path)
             w.begin_save(None)
             try:
+                if a.get("save_twice"):
+                    # the opened document is saved to another place first (still without edits): every copy it writes,
+                    # not only the first, must read like the source
+                    other = w.path("resave-first.numbers")
+                    w.remove(other)
+                    work.save(other, package=not package if a.get("save_twice") == "other_form" else package)
+                    sim.probe("resave_same_object_twice")
                 work.save(path, package=package)
             except Exception as e:  # noqa: BLE001
                 fr = lib_frame(e)
